@@ -1266,7 +1266,11 @@ impl DnsRegistry {
         for record in found_records {
             let probe = match self.probing.get_mut(record.get_name()) {
                 Some(p) => {
-                    p.start_time = probe_time; // restart this probe.
+                    // restart this probe, but not before the end of a wait
+                    // after a lost tiebreaking.
+                    p.start_time = probe_time.max(p.start_time);
+                    p.next_send = p.start_time;
+                    new_timer_added = true;
                     p
                 }
                 None => {
